@@ -13,10 +13,12 @@ from pgverif.monitors import genoref as G
 TIERS = {
     'quick': dict(shards=8, max_dnas=6, family_stride=4, random=28, dnas=4,
                   iter_max=24, corrupt=2, max_nodes=45, history=6,
-                  family_history=3, grid_stride=2, timeout_s=600),
+                  family_history=3, grid_stride=2, wrong_shapes=3, flagged=0.15,
+                  timeout_s=600),
     'thorough': dict(shards=16, max_dnas=24, family_stride=1, random=190,
                      dnas=8, iter_max=60, corrupt=3, max_nodes=60, history=8,
-                     family_history=3, grid_stride=1, timeout_s=3000,
+                     family_history=3, grid_stride=1, wrong_shapes=4, flagged=0.15,
+                     timeout_s=3000,
                      case_timeout_s=300),
 }
 RULE = ('case = one template description (gen/templates.py) with a `where` '
@@ -35,7 +37,11 @@ RULE = ('case = one template description (gen/templates.py) with a `where` '
         'inside or just outside the bounds (the reference knows whether the '
         'range fits: a misfit may be refused at binding, else a member that '
         'decodes outside the spec is decoded first); evolvable placeholders '
-        'whose node_transform changes the value. Part 3: the bounded grid of '
+        'whose node_transform changes the value; a share `flagged` of the '
+        'family / random templates carries a symbolic flag set through public '
+        'API (sealed, accessor_writable=False on the root / a sub-tree / a '
+        'container inside a candidate, allow_partial root) and must behave '
+        'like the unflagged one. Part 3: the bounded grid of '
         'boundary bindings gen/templates.bound_grid (bound value x lower/upper x '
         'range end just outside / outside / on / inside x floatv / oneof / manyof; '
         'every `grid_stride`-th one, rotated by the seed). DNAs: all members of spaces with <= '
@@ -48,7 +54,10 @@ RULE = ('case = one template description (gen/templates.py) with a `where` '
         'decoded value, of its deep clone, and of an equal value rebuilt from '
         'plain or symbolic dicts / lists with permuted dict key order), '
         'materialize; every template: pg.iter, '
-        'random sampling, dynamic evaluation, non-member DNAs, and a HISTORY of '
+        'random sampling, dynamic evaluation, non-member DNAs, encode / try_encode '
+        'of `wrong_shapes` one-step corruptions of a decoded value (dict with int '
+        'keys for a list, extra / missing key, list length, container <-> leaf) '
+        'after which the template must be unchanged whatever the outcome, and a HISTORY of '
         'decode / client edit of a handed-out value / random_dna(previous_dna) / '
         'next_dna / encode / re-decode over '
         'the members and the proposed children in which every value handed out '
@@ -70,6 +79,7 @@ REQUIRED_COUNTERS = ['spec_checks', 'decode_checks', 'reference_compared',
                      'history_ops', 'history_held_checks',
                      'history_redecode_checks', 'history_children',
                      'identity_checks', 'history_edits', 'encode_key_order_checks',
+                     'wrong_shape_encode_checks', 'flagged_templates',
                      'history_fresh_template_checks']
 ASSUMPTIONS = [
     'a DNA is valid for a template iff its decisions are a member of the space derived from the description (genoref); DNAs are built in the documented nested form, some bound to the template\'s own spec',
@@ -80,6 +90,8 @@ ASSUMPTIONS = [
     'templates whose filter keeps no placeholder, tuples containing placeholders, NaN, negative choice indices and manyof with num_choices of 0 or 1 are not generated',
     'a DNA proposed by random_dna / next_dna of the template\'s spec is used in a history only when it is a member of the reference space; the genome of an evolvable placeholder stands for the value whose JSON text it is; whether such calls raise is not judged',
     'a placeholder whose range is not inside the value spec of its field may be refused when it is bound (no template, nothing to check) and a refusal of a range that fits is reported as build-raised; int constants in float fields and floatv under noneable fields are not generated',
+    'what encode / try_encode return or raise for a value that is not of the template\'s shape is not judged, only that the template is unchanged; which flags (sealed, accessor_writable, allow_partial) a decoded value carries is not judged, so an edit of a decoded value that the value refuses is skipped',
+    'the genome encode gives for an evolvable value rebuilt with another dict key order may spell another key order (several genomes stand for equal values)',
     'non-member DNAs (unsorted / repeated picks, index == number of candidates, float outside the range, wrong number of picks) must be rejected by decode: decode/encode can only be inverse bijections on the space',
 ]
 
@@ -167,11 +179,70 @@ def family_of(P):
   return TT.key_kind(P).split('[')[0]
 
 
+def container_paths(T, path=()):
+  """Paths (tokens) of the containers of a template value, also those inside
+  the candidates of choices."""
+  out = []
+  if T['t'] in ('dict', 'list', 'obj'):
+    out.append(path)
+    for tok, c in TT.children(T):
+      out.extend(container_paths(c, path + (tok,)))
+  elif T['t'] == 'choice':
+    for i, c in enumerate(T['cands']):
+      out.extend(container_paths(c, path + (('k', 'candidates'), ('i', i))))
+  return out
+
+
+FLAG_KINDS = ('sealed', 'accessor-not-writable', 'allow-partial')
+
+
+def random_flags(T, rng):
+  """[kind, [path, ...]] or None: which symbolic flag the template value
+  carries and on which containers (root / sub-tree / inside a candidate)."""
+  paths = container_paths(T)
+  if not paths:
+    return None
+  kind = rng.choice(['sealed', 'sealed', 'accessor-not-writable', 'allow-partial'])
+  if kind == 'allow-partial':
+    if T['t'] not in ('dict', 'list', 'obj') or T.get('specs') or T.get('elem'):
+      kind = 'sealed'
+    else:
+      return [kind, [()]]
+  if rng.random() < 0.35:
+    return [kind, [paths[0]]]                 # the root, when it is a container
+  return [kind, rng.sample(paths, min(len(paths), rng.randint(1, 2)))]
+
+
+def apply_flags(T, flags):
+  """The template value of T with the flags set through public API."""
+  kind, paths = flags
+  if kind == 'allow-partial':
+    if T['t'] == 'dict':
+      return pg.Dict({k: TT.build(c) for k, c in T['items']}, allow_partial=True)
+    if T['t'] == 'list':
+      return pg.List([TT.build(c) for c in T['items']], allow_partial=True)
+    from pgverif import models as M  # pylint: disable=g-import-not-at-top
+    return getattr(M, T['cls']).partial(**{k: TT.build(c) for k, c in T['fields']})
+  v = TT.build(T)
+  for path in paths:
+    node = v
+    for tok in path:
+      node = node.sym_getattr(tok[1]) if isinstance(node, pg.Symbolic) else node[tok[1]]
+    if kind == 'sealed':
+      node.seal()
+    else:
+      node.set_accessor_writable(False)
+  return v
+
+
 class Case:
   """One template under test."""
 
-  def __init__(self, T, W, plain, bad_size, entry):
+  def __init__(self, T, W, plain, bad_size, entry, flags=None):
     self.T, self.W, self.plain, self.entry = T, W, plain, entry
+    # [kind, [path tokens of a container of the template value, ...]]: the
+    # template value carries symbolic flags (see `apply_flags`)
+    self.flags = flags
     # the oversized manyof only matters when the filter keeps it
     self.bad_size = bad_size and any(
         p['t'] == 'choice' and p['k'] == 5 and TT.keep(W, p)
@@ -189,10 +260,16 @@ class Case:
     self.record = {'template': TT.show(T), 'where': TT.show_where(W),
                    'entry': entry, 'plain_root': plain, 'description': T,
                    'filter': W}
+    if flags:
+      self.record['flags'] = [flags[0], [
+          '/'.join(str(t[1]) for t in p) or '<root>' for p in flags[1]]]
     self.make()
 
   def make(self):
-    self.v = TT.build(self.T, plain_root=self.plain)
+    if self.flags:
+      self.v = apply_flags(self.T, self.flags)
+    else:
+      self.v = TT.build(self.T, plain_root=self.plain)
     if self.entry == 'pg.template':
       self.t = pg.template(self.v, self.where)
     else:
@@ -204,6 +281,8 @@ class Case:
     be attributed to one placeholder."""
     if self.plain:
       return 'plain-container-root'
+    if self.flags:
+      return self.flags[0] + '-template'
     if self.bad_size:
       return 'manyof-vs-list-size'
     if self.misfit:
@@ -469,39 +548,69 @@ def check_identity(ctx, cs, values, detail):
   return False
 
 
-def permuted_copy(v, rng, plain, stats):
+def permuted_copy(v, rng, plain, stats, skip=None, path=()):
   """A value equal to `v`, rebuilt from scratch: every dict (plain=True:
   built-in dicts / lists, else pg.Dict / pg.List) lists its keys in another
-  order; objects are constructed again from their (rebuilt) fields."""
+  order; objects are constructed again from their (rebuilt) fields. `skip`:
+  paths at / below which dicts keep their order; stats['below'] counts the
+  permuted dicts at / below stats['tops']."""
   if isinstance(v, pg.hyper.HyperPrimitive):
     return v.clone(deep=True)                 # a placeholder the filter left
   if isinstance(v, pg.Object):
-    return type(v)(**{k: permuted_copy(x, rng, plain, stats)
+    return type(v)(**{k: permuted_copy(x, rng, plain, stats, skip, path + (('k', k),))
                       for k, x in v.sym_items()})
   if isinstance(v, dict):
     src = v.sym_items() if isinstance(v, pg.Dict) else v.items()
-    items = [(k, permuted_copy(x, rng, plain, stats)) for k, x in src]
-    if len(items) >= 2:
+    items = [(k, permuted_copy(x, rng, plain, stats, skip, path + (('k', k),)))
+             for k, x in src]
+    below = lambda tops: any(tuple(path[:len(t)]) == tuple(t) for t in tops)
+    if len(items) >= 2 and not (skip and below(skip)):
       keys = [k for k, _ in items]
       rng.shuffle(items)
       if [k for k, _ in items] == keys:
         items.reverse()
       stats['permuted'] += 1
+      if below(stats['tops']):
+        stats['below'] += 1
     return dict(items) if plain else pg.Dict(dict(items))
   if isinstance(v, list):
     src = [x for _, x in v.sym_items()] if isinstance(v, pg.List) else list(v)
-    items = [permuted_copy(x, rng, plain, stats) for x in src]
+    items = [permuted_copy(x, rng, plain, stats, skip, path + (('i', i),))
+             for i, x in enumerate(src)]
     return items if plain else pg.List(items)
   return v
+
+
+def same_dna(a, b):
+  """DNA trees equal; two genomes (strings) of a custom / evolvable decision
+  also count as equal when both are JSON texts of equal values (the genome of
+  an evolvable value is its JSON text, which spells out a key order: several
+  genomes stand for equal values and which one encode gives is left open)."""
+  if len(a.children) != len(b.children):
+    return False
+  if a.value != b.value:
+    if not (isinstance(a.value, str) and isinstance(b.value, str)):
+      return False
+    try:
+      if json.loads(a.value) != json.loads(b.value):
+        return False
+    except ValueError:
+      return False
+  return all(same_dna(x, y) for x, y in zip(a.children, b.children))
 
 
 def check_key_order(ctx, cs, dna, value, e_value, c_value, plain):
   """encode(value') == encode(value) for value' equal to the decoded `value`
   but rebuilt with permuted dict key order. False when the case must end."""
   c = ctx.counters
-  stats = {'permuted': 0}
+  # permuted: the dicts of the constant part only, or (scope 'all') also the
+  # dicts that came from candidates of choices / other placeholders
+  tops = [p for p, _ in cs.tops]
+  scope = ctx.rng.choice(['top', 'all'])
+  stats = {'permuted': 0, 'below': 0, 'tops': tops}
   try:
-    other = permuted_copy(value, ctx.rng, plain, stats)
+    other = permuted_copy(value, ctx.rng, plain, stats,
+                          skip=tops if scope == 'top' else None)
     equal = TT.canon_value(other) == c_value and bool(pg.eq(other, value))
   except Exception:  # pylint: disable=broad-except
     c['key_order_rebuild_failed'] += 1        # e.g. a value its class refuses
@@ -513,21 +622,23 @@ def check_key_order(ctx, cs, dna, value, e_value, c_value, plain):
     c['key_order_rebuild_not_equal'] += 1
     return True
   form = 'plain-dict' if plain else 'pg.Dict'
+  mech = 'permuted-dict-keys' + ('/in-candidate' if stats['below'] else '')
   c['encode_key_order_checks'] += 1
   c['encode_key_order:' + form] += 1
+  c['encode_key_order:' + mech] += 1
   try:
     e = cs.t.encode(other)
   except Exception as ex:  # pylint: disable=broad-except
     if not is_lib_error(ex) and not isinstance(ex, (ValueError, TypeError, KeyError, NotImplementedError)):
       raise
-    ctx.violation('encode-key-order', f'encode-raised:{form}',
+    ctx.violation('encode-key-order', 'encode-raised:' + mech,
                   f'encode(decode({dna!r})) = {e_value!r}, but encode of the equal value '
                   f'{other!r:.500} (dict keys in another order) raised:\n{tb(ex)}', cs.record)
     return check_snapshot(ctx, cs, 'encode')
   if not check_snapshot(ctx, cs, 'encode'):
     return False
-  if dna_shape(e) != dna_shape(e_value):
-    ctx.violation('encode-key-order', f'encode:{form}',
+  if not same_dna(e, e_value):
+    ctx.violation('encode-key-order', 'encode:' + mech,
                   f'encode(decode({dna!r})) = {e_value!r}, but encode of the equal value '
                   f'{other!r:.500} (dict keys in another order) = {e!r}', cs.record)
   return True
@@ -983,6 +1094,140 @@ def check_nonmembers(ctx, cs, members):
 
 
 # --------------------------------------------------------------------------
+# encode / try_encode of values that are NOT of the template's shape.
+# --------------------------------------------------------------------------
+
+class RebuildRefused(Exception):
+  pass
+
+
+def value_sites(v, path=(), out=None):
+  """{'dict': [path], 'list': [path], 'leaf': [path]} of a decoded value
+  (placeholders the filter left are not entered)."""
+  out = {'dict': [], 'list': [], 'leaf': []} if out is None else out
+  if isinstance(v, pg.hyper.HyperPrimitive):
+    return out
+  if isinstance(v, pg.Object):
+    for k, x in v.sym_items():
+      value_sites(x, path + (('k', k),), out)
+  elif isinstance(v, dict):
+    out['dict'].append(path)
+    for k, x in (v.sym_items() if isinstance(v, pg.Dict) else v.items()):
+      value_sites(x, path + (('k', k),), out)
+  elif isinstance(v, list):
+    out['list'].append(path)
+    for i, x in enumerate([x for _, x in v.sym_items()] if isinstance(v, pg.List) else v):
+      value_sites(x, path + (('i', i),), out)
+  else:
+    out['leaf'].append(path)
+  return out
+
+
+def rebuild_with(v, site, fn, path=()):
+  """A copy of `v` from built-in dicts / lists (objects constructed again) in
+  which the node at `site` is replaced by fn(its copy)."""
+  if isinstance(v, pg.hyper.HyperPrimitive):
+    r = v.clone(deep=True)
+  elif isinstance(v, pg.Object):
+    fields = {k: rebuild_with(x, site, fn, path + (('k', k),))
+              for k, x in v.sym_items()}
+    try:
+      r = type(v)(**fields)
+    except Exception as e:  # pylint: disable=broad-except
+      raise RebuildRefused() from e          # the class refuses the wrong value
+  elif isinstance(v, dict):
+    r = {k: rebuild_with(x, site, fn, path + (('k', k),))
+         for k, x in (v.sym_items() if isinstance(v, pg.Dict) else v.items())}
+  elif isinstance(v, list):
+    r = [rebuild_with(x, site, fn, path + (('i', i),)) for i, x in enumerate(
+        [x for _, x in v.sym_items()] if isinstance(v, pg.List) else v)]
+  else:
+    r = v
+  return fn(r) if path == site else r
+
+
+def wrong_shapes(value, rng):
+  """[(kind, value of another shape)]: one-step corruptions of a decoded value
+  (kind is known by construction)."""
+  sites = value_sites(value)
+  plans = []
+  for site in sites['list']:
+    plans += [
+        ('dict-for-list', site, lambda L: dict(enumerate(L))),
+        ('dict-for-list', site, lambda L, n=rng.randrange(3): {len(L) + n: 2}),
+        ('dict-for-list', site, lambda L: {0: L[0] if L else 2}),
+        ('dict-for-list', site, lambda L: {}),
+        ('list-length', site, lambda L: L + [L[-1] if L else 0]),
+        ('list-length', site, lambda L: L[:-1] if L else [0]),
+        ('wrong-type', site, lambda L, x=rng.choice([3, 'w', None]): x),
+    ]
+  for site in sites['dict']:
+    plans += [
+        ('extra-key', site, lambda D: dict(D, zz__=1)),
+        ('missing-key', site, lambda D, r=rng.random(): {
+            k: x for i, (k, x) in enumerate(D.items()) if i != int(r * len(D))}
+         if D else {'zz__': 1}),
+        ('wrong-type', site, lambda D, x=rng.choice([3, 'w', None, []]): x),
+    ]
+  for site in sites['leaf']:
+    plans += [
+        ('wrong-leaf', site, lambda x, y=rng.choice([{'q': 1}, [1], 'nope__']): y),
+    ]
+  return plans
+
+
+def check_encode_wrong_shapes(ctx, cs, members):
+  """Whatever encode / try_encode make of a value that is not of the
+  template's shape, they leave the template as it was."""
+  c = ctx.counters
+  rng = ctx.rng
+  n = int(ctx.params.get('wrong_shapes', 3))
+  if not n or not members or cs.plain:
+    return True
+  m = members[0]
+  ok, d = decode(ctx, cs, cs.dna(m), m)
+  if not ok:
+    return True
+  plans = wrong_shapes(d, rng)
+  # every kind of corruption gets its turn
+  rng.shuffle(plans)
+  plans.sort(key=lambda pl: c['wrong_shape:' + pl[0]])
+  done = 0
+  for kind, site, fn in plans:
+    if done >= n:
+      break
+    try:
+      bad = rebuild_with(d, site, fn)
+      if isinstance(bad, dict) and rng.random() < 0.4:
+        bad = pg.Dict(bad)
+      elif isinstance(bad, list) and rng.random() < 0.4:
+        bad = pg.List(bad)
+    except RebuildRefused:
+      c['wrong_shape_rebuild_refused'] += 1
+      continue
+    done += 1
+    op = rng.choice(['encode', 'try_encode'])
+    c['wrong_shape_encode_checks'] += 1
+    c['wrong_shape:' + kind] += 1
+    try:
+      r = cs.t.encode(bad) if op == 'encode' else cs.t.try_encode(bad)
+      c['wrong_shape_outcome:returned'] += 1
+    except Exception as e:  # pylint: disable=broad-except
+      r = f'raised {type(e).__name__}'
+      c['wrong_shape_outcome:raised'] += 1
+    now = snap(cs.v)
+    if now != cs.before:
+      ctx.violation('template-modified', 'encode:' + kind,
+                    f'{op} of the wrong-shaped value {bad!r:.400} ({kind} at '
+                    f'{"/".join(str(t[1]) for t in site)!r} of decode({cs.dna(m)!r})) '
+                    f'gave {r!r:.200} and changed the template:\n'
+                    f'before: {cs.before[1][:500]}\nafter:  {now[1][:500]}', cs.record)
+      cs.make()
+      return False
+  return True
+
+
+# --------------------------------------------------------------------------
 # Histories: decode / random_dna(previous_dna) / next_dna / encode / re-decode.
 # --------------------------------------------------------------------------
 
@@ -1282,8 +1527,12 @@ def run_case(ctx, i):
     c['random_cases'] += 1
     T, W, plain, bad, kind = random_case(ctx, rng)
   entry = rng.choice(['pg.template', 'pg.template', 'ObjectTemplate'])
+  flags = None
+  if (not plain and not bad and kind != 'grid'
+      and rng.random() < ctx.params.get('flagged', 0.15) and not TT.misfits(T)):
+    flags = random_flags(T, rng)
   try:
-    cs = Case(T, W, plain, bad, entry)
+    cs = Case(T, W, plain, bad, entry, flags)
   except Exception as e:  # pylint: disable=broad-except
     if not is_lib_error(e):
       raise
@@ -1295,9 +1544,22 @@ def run_case(ctx, i):
       c['binding_refusal_checks'] += 1
       c['bad_size_refused_at_binding' if bad else 'misfit_refused_at_binding'] += 1
       return
-    ctx.violation('build-raised', kind, tb(e), {'template': TT.show(T)})
-    return
+    ctx.violation('build-raised', flags[0] + '-template' if flags else kind, tb(e),
+                  {'template': TT.show(T), 'where': TT.show_where(W),
+                   'flags': repr(flags)})
+    if not flags:
+      return
+    # heal: go on with the unflagged template
+    c['flagged_template_refused'] += 1
+    flags = None
+    try:
+      cs = Case(T, W, plain, bad, entry, None)
+    except Exception:  # pylint: disable=broad-except
+      return
   c['kind:' + kind] += 1
+  if flags:
+    c['flagged_templates'] += 1
+    c['flagged:' + flags[0]] += 1
   if cs.bound_spec:
     c['bound_spec_templates'] += 1
   if any(p.get('transform') == 'step' and TT.keep(W, p) for p in TT.all_placeholders(T)):
@@ -1369,7 +1631,8 @@ def run_case(ctx, i):
       ctx.params['family_history' if kind in ('family', 'grid') else 'history']))
   alive = (alive and check_iter(ctx, cs, all_members) is not False
            and check_random(ctx, cs) is not False
-           and check_nonmembers(ctx, cs, members))
+           and check_nonmembers(ctx, cs, members)
+           and check_encode_wrong_shapes(ctx, cs, members))
   if alive and W['by'] == 'all' and not bad and not cs.misfit and not any(
       p['name'] for p in TT.all_placeholders(T)):
     check_dynamic(ctx, cs, members)         # names share decisions there: not generated
